@@ -268,3 +268,134 @@ Proof.
   - left. lia.
   - left. destruct (sel_on k (s_pc s0)); lia.
 Qed.
+
+Lemma helper_leave : forall k c s X, nth_error (ss c) s = Some X -> forall K, nth_error (ls c) k = Some K ->
+  forall a, leaves a s -> helper k c a = sel_on k (s_pc X) && match l_w K with WPending => true | _ => false end.
+Proof. intros k c s X HX K HK a [->|[->| ->]]; simpl; rewrite HX, HK; auto. Qed.
+
+Lemma mu_step : forall c a c' k K,
+  step c a = Some c' -> nth_error (ls c) k = Some K ->
+  mu k c' <= mu k c /\ (helper k c a = true -> mu k c' < mu k c).
+Proof.
+  intros c a c' k K H HK. rewrite !mu_rank, (step_ss_length _ _ _ H), HK.
+  pose proof (rcount_le k (ss c)) as Hle. pose proof (nth_some_lt _ _ _ HK) as Hlt.
+  destruct a; simpl in H; break_step H; unfold set_s, set_l; cbn [ls ss helper];
+    try (rewrite nth_error_app1 by auto);
+    try match goal with |- context [nth_error (upd (ls c) ?l ?x) k] =>
+      destruct (Nat.eq_dec l k) as [->|Hne];
+      [rewrite nth_upd_eq by auto; same_k | rewrite nth_upd_neq by auto] end;
+    rewrite ?HK; cbn [l_w];
+    try match goal with
+    | E : nth_error (ss c) ?s = Some ?X |- context [rcount k (upd (ss c) ?s ?X')] =>
+        pose proof (rcount_upd k (ss c) s X X' E) as RU;
+        try match goal with E : s_pc _ = _ |- _ => rewrite E in RU end; cbn [with_pc s_pc sel_on] in RU
+    end.
+  all: try (destruct (l_w K) eqn:EW; cbn [rank] in *; rewrite ?andb_false_r, ?andb_true_r;
+            try match goal with E : nth_error (ss _) _ = Some _ |- _ => rewrite E end;
+            try match goal with E : s_pc _ = _ |- _ => rewrite E end; cbn [sel_on];
+
+            try (match goal with |- context [Nat.eqb ?x ?y] => destruct (Nat.eqb x y) eqn:EQ; [apply Nat.eqb_eq in EQ; subst|] end); same_k;
+            split; intros; try discriminate; try congruence; try lia).
+  all: destruct (Nat.eqb n k) eqn:EQ; [apply Nat.eqb_eq in EQ; subst; same_k; congruence | lia].
+Qed.
+
+Lemma mu_progress : forall c k K, nth_error (ls c) k = Some K -> l_cancel K = true -> mu k c > 0 ->
+  exists a c', helper k c a = true /\ step c a = Some c'.
+Proof.
+  intros c k K HK Hc Hm. rewrite mu_rank, HK in Hm. destruct (l_w K) eqn:EW; cbn [rank] in Hm.
+  - exists (LWake k). simpl. rewrite HK, EW, Hc, Nat.eqb_refl. eauto.
+  - exists (LLockReq k). simpl. rewrite HK, EW, Nat.eqb_refl. eauto.
+  - destruct (rcount k (ss c)) eqn:ER.
+    + exists (LStop k). simpl. rewrite HK, EW, Nat.eqb_refl, (rcount_no _ _ ER). eauto.
+    + destruct (rcount_pos k (ss c)) as (s & X & HX & Hs); [lia|].
+      destruct (sel_on_true _ _ Hs) as (o & r & g & sn & Hpc).
+      exists (LSelListenCtx s). simpl. rewrite HX, Hpc, HK, Hc, EW. simpl. rewrite Nat.eqb_refl. eauto.
+  - lia.
+Qed.
+
+Lemma mu_zero : forall c k K, nth_error (ls c) k = Some K -> (mu k c = 0 <-> l_w K = WDone).
+Proof.
+  intros c k K HK. rewrite mu_rank, HK. destruct (l_w K); cbn [rank]; split; intros; try discriminate; try lia; auto.
+Qed.
+
+Lemma helper_steps_bound : forall tr c c' k K, nth_error (ls c) k = Some K -> run c tr = Some c' ->
+  mu k c' + helper_steps k c tr <= mu k c.
+Proof.
+  induction tr; simpl; intros c c' k K HK H.
+  - inversion H. subst. lia.
+  - destruct (step c a) eqn:E; try discriminate.
+    destruct (nth_ls_step _ _ _ _ _ E HK) as (K' & HK' & _).
+    specialize (IHtr _ _ _ _ HK' H). destruct (mu_step _ _ _ _ _ E HK) as (M1 & M2).
+    destruct (helper k c a); [specialize (M2 eq_refl)|]; lia.
+Qed.
+
+(* watcher state, channel state and context flag of every listener are consistent *)
+Definition winv (c : config) : Prop := forall k K, nth_error (ls c) k = Some K ->
+  (l_closed K = true <-> l_w K = WDone) /\ (l_w K <> WWait -> l_cancel K = true).
+
+Lemma winv_step : forall c a c', winv c -> step c a = Some c' -> winv c'.
+Proof.
+  unfold winv. intros c a c' I H k K HK.
+  destruct a; simpl in H; break_step H; unfold set_s, set_l in *; cbn [ls] in *; auto;
+    try solve [eapply I; eauto];
+    try (apply nth_app_new in HK; destruct HK as [HK|(_ & ->)];
+         [eapply I; eauto | simpl; split; [split; discriminate | congruence]]);
+    apply nth_upd in HK; destruct HK as [(-> & -> & _)|(_ & HK)]; auto; cbn [l_closed l_w l_cancel];
+    match goal with E : nth_error (ls c) _ = Some ?L |- _ => destruct (I _ _ E) as (I1 & I2) end;
+    try solve [split; auto]; try solve [split; [split; congruence | auto]].
+  - split; [|auto]. rewrite Heqw in I1. split; intros; try discriminate. apply I1 in H. discriminate.
+  - split; [|intros; apply I2; congruence]. rewrite Heqw in I1. split; intros; try discriminate. apply I1 in H. discriminate.
+  - split; [split; auto|]. intros _. apply I2. congruence.
+Qed.
+
+Lemma winv_reach : forall n c, reach n c -> winv c.
+Proof.
+  induction 1.
+  - intros k K HK. destruct k; discriminate.
+  - eapply winv_step; eauto.
+Qed.
+
+(* Cancel closes the channel.  For every configuration reachable from the empty bus and every
+   listener k whose context is cancelled:
+   - the measure mu k never grows, whatever step is taken by whatever goroutine, and every step
+     of a helper of k (the watcher of k; a sender leaving the select of k while the watcher
+     waits for the lock) makes it strictly smaller;
+   - as long as it is positive some helper step is enabled (so nothing the subscription needs
+     is ever blocked by other goroutines: the subscription cannot deadlock);
+   - it is zero exactly when the watcher has ended, and then the channel is closed;
+   - hence along any further schedule, once mu k helper steps have been taken, the channel is
+     closed.  Under weak fairness (a goroutine that stays enabled is eventually scheduled)
+     helper steps keep being taken while mu k > 0, because the enabled helper stays enabled
+     until it or another helper moves (its enabledness depends only on the watcher state, the
+     cancelled flag and its own pc). *)
+Theorem cancel_closes : forall n tr c k K,
+  run (init n) tr = Some c -> nth_error (ls c) k = Some K -> l_cancel K = true ->
+  (forall a c', step c a = Some c' -> mu k c' <= mu k c /\ (helper k c a = true -> mu k c' < mu k c)) /\
+  (mu k c > 0 -> exists a c', helper k c a = true /\ step c a = Some c') /\
+  (mu k c = 0 <-> (l_w K = WDone /\ l_closed K = true)) /\
+  (forall tr' c', run c tr' = Some c' -> helper_steps k c tr' >= mu k c ->
+     exists K', nth_error (ls c') k = Some K' /\ l_w K' = WDone /\ l_closed K' = true).
+Proof.
+  intros n tr c k K Hr HK Hc. apply run_reach in Hr. split; [|split; [|split]].
+  - intros a c' Hs. eapply mu_step; eauto.
+  - intros Hm. eapply mu_progress; eauto.
+  - pose proof (winv_reach _ _ Hr _ _ HK) as (W1 & _). rewrite (mu_zero _ _ _ HK). tauto.
+  - intros tr' c' Hrun Hh. pose proof (helper_steps_bound _ _ _ _ _ HK Hrun) as Hb.
+    assert (Hz : mu k c' = 0) by lia.
+    assert (exists K', nth_error (ls c') k = Some K') as (K' & HK').
+    { clear - HK Hrun. revert c K HK Hrun. induction tr'; simpl; intros c K HK Hrun.
+      - inversion Hrun; subst; eauto.
+      - destruct (step c a) eqn:E; try discriminate.
+        destruct (nth_ls_step _ _ _ _ _ E HK) as (K1 & HK1 & _). eauto. }
+    exists K'. split; auto. rewrite (mu_zero _ _ _ HK') in Hz. split; auto.
+    pose proof (reach_run _ _ _ _ Hr Hrun) as Hr'.
+    destruct (winv_reach _ _ Hr' _ _ HK') as (W1 & _). tauto.
+Qed.
+
+(* a channel is only ever closed after its context was cancelled *)
+Theorem closed_only_after_cancel : forall n tr c k K,
+  run (init n) tr = Some c -> nth_error (ls c) k = Some K -> l_closed K = true -> l_cancel K = true.
+Proof.
+  intros n tr c k K Hr HK Hc. apply run_reach in Hr. destruct (winv_reach _ _ Hr _ _ HK) as (W1 & W2).
+  apply W2. apply W1 in Hc. congruence.
+Qed.
